@@ -82,6 +82,56 @@ fn main() {
         println!("{{\"outcome\":\"{}\",\"message\":\"{}\"}}", outcome, esc(&msg));
         return;
     }
+    if args.len() == 5 && args[1] == "--scss-fail-lookup" {
+        // compile <dir>/<entry> through a loader over <dir> whose k-th find_file call fails
+        use rsass::input::{Context, LoadError, Loader, SourceFile, SourceName};
+        use std::cell::Cell;
+        #[derive(Debug)]
+        struct Flaky {
+            dir: std::path::PathBuf,
+            calls: Cell<usize>,
+            fail_at: usize,
+        }
+        impl Loader for Flaky {
+            type File = std::fs::File;
+            fn find_file(&self, url: &str) -> Result<Option<Self::File>, LoadError> {
+                let n = self.calls.get();
+                self.calls.set(n + 1);
+                if n == self.fail_at {
+                    return Err(LoadError::Input(
+                        url.to_string(),
+                        std::io::Error::new(std::io::ErrorKind::PermissionDenied, "injected lookup failure"),
+                    ));
+                }
+                let full = self.dir.join(url);
+                if full.is_file() {
+                    std::fs::File::open(&full).map(Some).map_err(|e| LoadError::Input(url.to_string(), e))
+                } else {
+                    Ok(None)
+                }
+            }
+        }
+        let dir = std::path::PathBuf::from(&args[2]);
+        let entry = args[3].clone();
+        let fail_at: usize = args[4].parse().unwrap_or(usize::MAX);
+        panic::set_hook(Box::new(|_| {}));
+        let res = panic::catch_unwind(move || {
+            let data = std::fs::read(dir.join(&entry)).map_err(|e| format!("{e:?}"))?;
+            let loader = Flaky { dir, calls: Cell::new(0), fail_at };
+            let file = SourceFile::scss_bytes(data, SourceName::root(entry));
+            let ctx = Context::for_loader(loader);
+            ctx.transform(file)
+                .map(|v| String::from_utf8_lossy(&v).into_owned())
+                .map_err(|e| format!("{e:?}"))
+        });
+        let (outcome, msg) = match res {
+            Ok(Ok(css)) => ("ok", css),
+            Ok(Err(e)) => ("error", e),
+            Err(_) => ("panic", String::new()),
+        };
+        println!("{{\"outcome\":\"{}\",\"message\":\"{}\"}}", outcome, esc(&msg));
+        return;
+    }
     if args.len() < 2 {
         eprintln!("usage: replay <harness> [hex,hex,...]");
         std::process::exit(3);
